@@ -1,5 +1,8 @@
 (* C19 — The typed byte buffer reads back exactly what was written.
-   Only the property theorems; each closed by an exact lemma, followed by Print Assumptions. *)
+   Only the property theorems; each closed by an exact lemma, followed by Print Assumptions.
+   ws is the platform word size in bytes; every theorem holds for ws = 4 and ws = 8.
+   Values are in the range of their Go type (wf); floats are IEEE-754 bit patterns, so
+   "bit for bit" includes NaN payloads and the sign of zero. *)
 From Coq Require Import ZArith List Bool.
 From FV Require Import Lib.Wrap Lib.LE C19.Model C19.Proofs.
 Import ListNotations.
@@ -9,3 +12,76 @@ Open Scope Z_scope.
 Theorem c19_width : forall ws k v b, length (write ws k v b) = (length b + width ws k)%nat.
 Proof. exact write_length. Qed.
 Print Assumptions c19_width.
+
+(* "... in little-endian order": the appended bytes are, least significant first, the bytes of
+   the value's two's complement at the width of its type (ubits = v mod 2^(8*width)) *)
+Theorem c19_little_endian : forall ws k v b, word_size ws -> wf ws k v ->
+  write ws k v b = b ++ enc ws k v /\
+  length (enc ws k v) = width ws k /\
+  forall i, (i < width ws k)%nat -> nth i (enc ws k v) 0 = (ubits ws k v / 256 ^ Z.of_nat i) mod 256.
+Proof.
+  intros ws k v b Hws Hwf. split; [apply write_app|]. split; [apply enc_length|].
+  intros i Hi. exact (enc_nth ws k v i Hws Hwf Hi).
+Qed.
+Print Assumptions c19_little_endian.
+
+(* after any sequence of writes the buffer is the concatenation of the encodings, in order *)
+Theorem c19_layout : forall ws vs b, fst (run ws b (map wop vs)) = b ++ encs ws vs.
+Proof. exact writes_bytes. Qed.
+Print Assumptions c19_layout.
+
+(* "Any sequence of typed writes followed by the same sequence of typed reads returns the
+   written values bit for bit and leaves the buffer empty" — every list of typed values *)
+Theorem c19_roundtrip : forall ws vs, word_size ws -> Forall (wf_tv ws) vs ->
+  fst (run ws [] (map wop vs ++ map rop vs)) = [] /\
+  vals_of (snd (run ws [] (map wop vs ++ map rop vs))) = map (fun x => Some (snd x)) vs.
+Proof. exact roundtrip. Qed.
+Print Assumptions c19_roundtrip.
+
+(* generalisation to interleaved use: on every operation sequence in which each read / peek
+   asks for the kind of the oldest unread value, the buffer produces exactly the outputs
+   (values, lengths, Bytes()) of a FIFO queue of typed values *)
+Theorem c19_fifo : forall ws, word_size ws -> forall ops q q' xs,
+  Forall (wf_tv ws) q -> Forall (wf_op ws) ops -> srun ws q ops = Some (q', xs) ->
+  run ws (encs ws q) ops = (encs ws q', xs) /\ Forall (wf_tv ws) q'.
+Proof. exact run_refines. Qed.
+Print Assumptions c19_fifo.
+
+(* "a peek returns what the next read of that type would return without consuming anything":
+   on any buffer holding at least the width of the type *)
+Theorem c19_peek : forall ws k b, (width ws k <= length b)%nat ->
+  peek ws k b = fst (read ws k b) /\
+  fst (step ws b (OPeek k)) = b /\
+  snd (read ws k b) = skipn (width ws k) b.
+Proof.
+  intros ws k b H. destruct (peek_is_read ws k b H) as [H1 H2]. split; [exact H1|]. split; [|exact H2].
+  cbn [step]. destruct (peek ws k b); reflexivity.
+Qed.
+Print Assumptions c19_peek.
+
+(* ... and it is the oldest unread value when that has the type asked for *)
+Theorem c19_peek_value : forall ws k v rest, word_size ws -> wf ws k v ->
+  peek ws k (enc ws k v ++ rest) = Some v /\ read ws k (enc ws k v ++ rest) = (Some v, rest).
+Proof. intros ws k v rest Hws Hwf. split; [apply peek_enc | apply read_enc]; assumption. Qed.
+Print Assumptions c19_peek_value.
+
+(* non-vacuity: the hypotheses are met by extreme values of several kinds on both word sizes,
+   and the model computes the expected bytes *)
+Example c19_example :
+  let vs := [(KI16, -2); (KF32, 2143289344 + 1); (KInt, - 2 ^ 31); (KBool, 1); (KU64, 2 ^ 64 - 1)] in
+  word_size 4 /\ word_size 8 /\ Forall (wf_tv 4) vs /\ Forall (wf_tv 8) vs /\
+  encs 4 vs = [254; 255; 1; 0; 192; 127; 0; 0; 0; 128; 1; 255; 255; 255; 255; 255; 255; 255; 255] /\
+  encs 8 vs = [254; 255; 1; 0; 192; 127; 0; 0; 0; 128; 255; 255; 255; 255; 1;
+               255; 255; 255; 255; 255; 255; 255; 255] /\
+  vals_of (snd (run 8 [] (map wop vs ++ map rop vs))) = map (fun x => Some (snd x)) vs.
+Proof.
+  cbv zeta. split; [left; reflexivity|]. split; [right; reflexivity|].
+  split; [|split].
+  - repeat (apply Forall_cons; [unfold wf_tv, wf, in_u, in_s; cbn [fst snd];
+            first [right; reflexivity | split; [apply Z.leb_le; vm_compute; reflexivity | apply Z.ltb_lt; vm_compute; reflexivity]]|]).
+    apply Forall_nil.
+  - repeat (apply Forall_cons; [unfold wf_tv, wf, in_u, in_s; cbn [fst snd];
+            first [right; reflexivity | split; [apply Z.leb_le; vm_compute; reflexivity | apply Z.ltb_lt; vm_compute; reflexivity]]|]).
+    apply Forall_nil.
+  - split; [vm_compute; reflexivity|]. split; vm_compute; reflexivity.
+Qed.
